@@ -94,7 +94,10 @@ def gen_case(g):
     rng = g.rng
     poly = g.poly(maxexp=rng.choice([2, 3, 4]), kind=rng.choice(["int", "int", "int", "float", "complex"]))
     names = poly["names"]
-    fam = rng.choice([[(), (3,), (1, 3), (2, 1, 3), (2, 1, 1)], [(), (2,), (2, 2), (1, 2)], [()]])
+    fam = rng.choice([[(), (3,), (1, 3), (2, 1, 3), (2, 1, 1), (1,), (1, 1)],
+                      [(), (2,), (2, 2), (1, 2), (1,), (1, 1)], [()],
+                      # single values that nevertheless carry axes
+                      [(), (1,), (1, 1), (1, 1, 1)]])
     mode = rng.choice(["full", "full", "full", "partial", "partial", "error", "swap"])
     if mode == "swap" and len(names) >= 2:
         # every indeterminate replaced by another one (q0 <-> q1, cyclic shifts)
